@@ -58,6 +58,19 @@ func admLabelValue(r *rand.Rand, key string) string {
 	return pick(r, admBadVersions)
 }
 
+// labelHook, when set, supplies the namespace labels of pod and controller scenarios (streams that want the
+// same policy to recur within a history).
+var labelHook func(r *rand.Rand) map[string]string
+
+func nsLabelsFor(r *rand.Rand) map[string]string {
+	if labelHook != nil {
+		if ls := labelHook(r); ls != nil {
+			return ls
+		}
+	}
+	return admLabels(r, 40)
+}
+
 func admLabels(r *rand.Rand, pPresent int) map[string]string {
 	m := map[string]string{}
 	for _, k := range labelKeys {
@@ -276,7 +289,7 @@ func junkMeta(r *rand.Rand, p *corev1.Pod) {
 
 func podScenario(r *rand.Rand, marker bool) scenario {
 	s := scenario{Marker: marker, Cfg: admCfg(r, false)}
-	ls := admLabels(r, 40)
+	ls := nsLabelsFor(r)
 	if r.Intn(100) < 12 {
 		ls = map[string]string{}
 	}
@@ -285,7 +298,7 @@ func podScenario(r *rand.Rand, marker bool) scenario {
 	s.World.ErrKind = r.Intn(8)
 	s.LVs = candidateLVs([]map[string]string{ls}, s.Cfg.Defaults)
 	p := admPod(r, marker, "the-pod", s.LVs)
-	s.Req = adm.ReqSpec{Group: "", Resource: "pods", Namespace: pickNS(r), Name: "the-pod", User: pickUser(r), Op: "CREATE"}
+	s.Req = adm.ReqSpec{Group: "", Resource: "pods", Namespace: pickNS(r), Name: pick(r, []string{"the-pod", "the-pod", "the-pod", "the-pod", ""}), User: pickUser(r), Op: "CREATE"} // "": a generateName create
 	switch x := r.Intn(100); {
 	case x < 45:
 	case x < 85:
@@ -368,7 +381,7 @@ func podScenario(r *rand.Rand, marker bool) scenario {
 
 func controllerScenario(r *rand.Rand, marker bool) scenario {
 	s := scenario{Marker: marker, Cfg: admCfg(r, false)}
-	ls := admLabels(r, 40)
+	ls := nsLabelsFor(r)
 	s.World.NSLabels = ls
 	s.World.NSErr = r.Intn(100) < 6
 	s.World.ErrKind = r.Intn(8)
@@ -376,7 +389,7 @@ func controllerScenario(r *rand.Rand, marker bool) scenario {
 	p := admPod(r, marker, "tmpl", s.LVs)
 	p.Namespace = ""
 	ck := adm.ControllerKinds[r.Intn(len(adm.ControllerKinds))]
-	s.Req = adm.ReqSpec{Group: ck.Group, Resource: ck.Resource, Namespace: pickNS(r), Name: "ctl", User: pickUser(r), Op: pick(r, []string{"CREATE", "UPDATE", "UPDATE", "CREATE", "DELETE"})}
+	s.Req = adm.ReqSpec{Group: ck.Group, Resource: ck.Resource, Namespace: pickNS(r), Name: pick(r, []string{"ctl", "ctl", "ctl", ""}), User: pickUser(r), Op: pick(r, []string{"CREATE", "UPDATE", "UPDATE", "CREATE", "DELETE"})}
 	if r.Intn(100) < 15 {
 		s.Req.Subresource = pick(r, []string{"status", "scale", "x"})
 	}
@@ -546,6 +559,31 @@ func namespaceScenario(r *rand.Rand, marker bool) scenario {
 		}
 	}
 	s.World.Pods = listedPods(r, marker, s.LVs, n)
+	if s.Cfg.MaxPods > 0 && len(s.Cfg.ExRCs) > 0 && r.Intn(100) < 25 {
+		// a controller mid-rollout: its first listed pod runs under an exempt runtime class, its second one
+		// does not and violates every candidate policy; then more bare pods than the budget
+		n = s.Cfg.MaxPods + 2 + r.Intn(2)
+		pods := listedPods(r, marker, s.LVs, n)
+		tr := true
+		owner := []metav1.OwnerReference{{UID: "rollout", Controller: &tr}}
+		rc := s.Cfg.ExRCs[r.Intn(len(s.Cfg.ExRCs))]
+		pods[0].OwnerReferences, pods[0].Spec.RuntimeClassName = owner, &rc
+		pods[1].OwnerReferences, pods[1].Spec.RuntimeClassName = owner, nil
+		pods[1].Spec.HostNetwork = true
+		if marker {
+			if pods[1].Annotations == nil {
+				pods[1].Annotations = map[string]string{}
+			}
+			for _, lv := range s.LVs {
+				pods[1].Annotations["m/"+lv.String()] = "rollout-violation"
+			}
+		}
+		for _, p := range pods[2:] {
+			p.OwnerReferences = nil
+		}
+		s.World.Pods = pods
+		s.Tags = append(s.Tags, "listed:rollout-pattern")
+	}
 	s.World.ListErr = r.Intn(100) < 8
 	s.World.ErrKind = r.Intn(8)
 	if n > 0 && r.Intn(100) < 30 {
@@ -807,6 +845,7 @@ func Adm(stream string, seed int64, n int, pf string, mix []string) (*cq.Set, *c
 	in := cq.NewInterner()
 	set := &cq.Set{Stream: stream, Seed: seed, Imports: "Model.Api Model.Pod Model.Checks Model.Admission Corr.Adm", CaseTy: "adm_case", RunFn: "run_adm " + pf,
 		Rule: "admission requests drawn from the decision table of Validate: resource class x subresource (none / the 8 ignored / others) x operation x exemption hits and near-misses per dimension (empty, prefix, case change, value from another list) x dependency answers (lookup ok/err, object and old object ok/err/nil/wrong type, list ok/err, expiry index) x namespace label maps (valid, malformed) x defaults x pods on each side of each level; evaluator = real registry or marker evaluator (50/50); each case also runs the related requests (exemptions cleared, bare pod of the template, as CREATE, without subresource) and records the evaluator's direct answers; distinct by (config, request, world); non-trivial = at least one dependency call, evaluation or metric event"}
+	webProbes := 0
 	exemptHeavy = pf == "pf06" || pf == "pf07" || pf == "pf18" || pf == "pf_all"
 	real, marker := innerEvaluator(false), innerEvaluator(true)
 	if pf == "pf11cs" {
@@ -836,6 +875,25 @@ func Adm(stream string, seed int64, n int, pf string, mix []string) (*cq.Set, *c
 		if c.Term != "" {
 			set.Cases = append(set.Cases, c)
 		}
+		if pf == "pf12" && s.Req.Resource == "namespaces" && s.World.ExpireAfter == nil && i%3 == 0 {
+			// the same request through the webhook: the API server's ?timeout= is the request's deadline
+			var d *time.Duration
+			if x := []time.Duration{0, 300 * time.Millisecond, 1500 * time.Millisecond, 1900 * time.Millisecond, 4 * time.Second}[r.Intn(5)]; x > 0 {
+				d = &x
+			}
+			inner := real
+			if s.Marker {
+				inner = marker
+			}
+			if problem, status, listed := adm.WebDeadlineProbe(&s.Cfg, inner, &s.Req, &s.World, d); problem != "" {
+				set.GoFails = append(set.GoFails, cq.GoFail{What: problem, Replay: map[string]interface{}{"cfg": s.Cfg, "request": s.Req, "world": s.World, "webhook_timeout": fmt.Sprint(d), "http_status": status}})
+			} else if listed {
+				webProbes++
+			}
+		}
+	}
+	if pf == "pf12" {
+		set.Rule += fmt.Sprintf("; %d of the namespace requests that reach the dry run were also POSTed to HandleValidate with and without ?timeout= (300ms..4s) and the deadline of the context ListPods received was checked against it", webProbes)
 	}
 	return set, in
 }
